@@ -5,7 +5,7 @@
     is EntryHandler.Handle on the client message [q] (transport flag, client
     address) with the sequence program [prog] as entry, over ANY plugin tables
     ([xp]: hosts / black_hole / arbitrary / ttl / forward / drop_resp /
-    fallback over two sub-programs, [wp]: cache / redirect / ecs_handler /
+    fallback over two sub-programs, [wp]: cache (also lazy) / redirect / ecs_handler /
     forward_edns0opt / dual_selector, [mp]: matchers), ANY
     upstream oracles [ups] and cache clock [clock], for ANY nesting bound
     [depth] of fallback sub-sequences, starting from the plugin state [w]
@@ -43,7 +43,7 @@ Print Assumptions upstream_query_one_fresh_opt.
 (** In particular: without a forwarding plugin in the table nothing of the
     client's OPT reaches an upstream. *)
 Theorem upstream_query_no_options_without_plugin ups clock xp wp mp truncate packs depth prog w q udp ca :
-  (forall i, match wp i with WCache _ | WRedirect _ => True | _ => False end) ->
+  (forall i, match wp i with WCache _ _ | WRedirect _ => True | _ => False end) ->
   w_log w = [] ->
   forall u m, In (u, m) (w_log (fst (handle truncate packs (entry ups clock xp wp mp depth prog) w q udp ca))) ->
   exists o, opts_of (m_extra m) = [o] /\ o_opts o = [].
@@ -173,7 +173,7 @@ Proof. intros size m. apply trunc_rel_refl. Qed.
     fresh OPT with exactly cookie and client-subnet; the reply has one OPT, DO
     set, with exactly the upstream's cookie and client-subnet (no padding). *)
 Definition wp0 (i : N) : wplugin :=
-  nth (N.to_nat i) [WFwdOpt [10]; WEcs true false None 24 48; WCache 0] (WCache 0).
+  nth (N.to_nat i) [WFwdOpt [10]; WEcs true false None 24 48; WCache 0 0] (WCache 0 0).
 Definition prog0 : rules :=
   RCons (Rule [] (Wrap 0)) (RCons (Rule [] (Wrap 1)) (RCons (Rule [] (Wrap 2)) (RCons (Rule [] (Exec 0)) RNil))).
 Definition q0 : msg :=
@@ -223,7 +223,7 @@ Definition up2 (_ : N) (q : msg) : option msg :=
     else Some (with_extra (with_question (set_reply q) (m_question q)) [OPT (Opt 1232 false 0 0 [(10, 100)])])
   | [] => None
   end.
-Definition wp2 (i : N) : wplugin := nth (N.to_nat i) [WDual 0 false; WFwdOpt [10]] (WCache 0).
+Definition wp2 (i : N) : wplugin := nth (N.to_nat i) [WDual 0 false; WFwdOpt [10]] (WCache 0 0).
 Definition prog2 : rules := RCons (Rule [] (Wrap 0)) (RCons (Rule [] (Wrap 1)) (RCons (Rule [] (Exec 0)) RNil)).
 Definition q2 : msg :=
   Judge.C15.mk 5 256 0 [Judge.C15.Q Judge.C15.n0 28 1] [] [] [Judge.C15.O 4096 true 0 0 [(10, 2)]].
